@@ -29,6 +29,7 @@ class Gen:
         self.age = 0
         self.lines = []
         self.nstr = 0
+        self.anon = 0
 
     def new(self, kind, size=0):
         self.age += 1
@@ -57,7 +58,8 @@ class Gen:
                    ("dest", 2), ("cleanup", 2), ("drop", 1), ("call", 5), ("rmcall", 2), ("sweep", 3), ("sent", 4),
                    ("rmsent", 2), ("newfun", 4), ("fill", 3)]
         if m == "unit":
-            choices += [("newstr", 6), ("newmstr", 3), ("push", 6), ("pushr", 3), ("pop", 6), ("popto", 3), ("oref", 1)]
+            choices += [("newstr", 6), ("newmstr", 3), ("push", 6), ("pushr", 3), ("pop", 6), ("popto", 3), ("oref", 1),
+                        ("clones", 1), ("unclone", 1)]
         else:
             choices += [("err", 4), ("efun", 10)]
         k = r.weighted(choices)
@@ -237,6 +239,15 @@ class Gen:
                 c.items = {i: S[t] for i in range(n)}
             S[d] = c
             self.emit("fill %d %d %d" % (d, n, t))
+        elif k == "clones":
+            n = r.range(1, 40)
+            self.anon += n
+            self.emit("clones %d" % n)
+        elif k == "unclone":
+            n = r.range(1, max(1, self.anon))
+            if n <= self.anon and not any(o is not None and o.size == 1 for o in self.obj):
+                self.anon -= n
+            self.emit("unclone %d" % n)
         elif k == "err":
             self.emit("err %d %d" % (self.pick_slot(), self.pick_slot()))
         elif k == "efun":
@@ -264,6 +275,8 @@ class Gen:
             steps += ["drop %d" % o]
         # values kept only by variables of destructed objects / callbacks are gone after the last cleanup
         steps += ["sweep", "cleanup"]
+        if self.mode == "unit" and self.anon:
+            steps += ["unclone %d" % self.anon]
         self.lines += steps
 
 
@@ -276,7 +289,7 @@ class C06(Prop):
                 "NV.C06.string_saturates", "NV.C06.counters_exact", "NV.C06.balanced_history_returns_to_baseline",
                 "NV.C06.run_ok", "NV.C06.mstep_ok", "NV.C06.Fits_of_le"]
     witness_theorems = ["NV.C06.wrap_uaf", "NV.C06.wrap_uaf_state", "NV.C06.cycle_leaks",
-                        "NV.C06.object_cycle_cut_by_destruct"]
+                        "NV.C06.object_cycle_cut_by_destruct", "NV.C06.prog_wrap_uaf"]
     consts = [("refBits", "sizeof(((refed_t*)0)->ref) * 8"),
               ("arrRefBits", "sizeof(((array_t*)0)->ref) * 8"),
               ("mapRefBits", "sizeof(((mapping_t*)0)->ref) * 8"),
@@ -319,8 +332,8 @@ class C06(Prop):
             "canonical implementation trace")
     not_covered = ["that every efun (~250) and every opcode case (~120) follows the ownership convention on every path, "
                    "including every error path, is observed on the generated programs only (20 efun/operator groups), not proved",
-                   "program_t.ref / func_ref (16 bit, same wrap hazard with more than 65535 clones or inherits of one program) "
-                   "is not modelled; total_num_prog_blocks is not compared",
+                   "program_t.ref is modelled only as a counter beside the proved heap model (Drive.lean, ProgRef): its wrap is an "
+                   "open known finding; func_ref, inherit references and total_num_prog_blocks are not modelled",
                    "input_to sentences need an interactive user: the sentence path is exercised through add_action only",
                    "the fault-injection hook H2 of C05 is not used: error paths are errors raised by LPC code (nested frames, "
                    "inside efun callbacks, under catch)",
@@ -378,6 +391,9 @@ class C06(Prop):
                                                    "newfun 3 0 0", "call 0 0 1 0 0", "sent 0 0 0 0", "fill 4 64 0",
                                                    "free 0", "sweep", "rmsent 0", "free 4", "free 3", "free 2",
                                                    "mdel 1 2", "free 1", "dest 0", "cleanup", "drop 0"])
+        # program_t.ref: exact below the wrap (the wrap itself is the open known finding program-ref-wrap)
+        mk("program-ref-300-clones", "unit", ["newobj 0", "clones 300", "dest 0", "unclone 5", "cleanup", "unclone 295",
+                                              "drop 0"])
         mk("string-saturation", "unit", ["newstr 0 c06sat"] + big + ["fill 5 9534 0", "assign 6 0", "newstr 7 c06sat"]
            + rel + ["free 6", "free 7"])
         mk("malloc-string-shared", "unit", ["newmstr 0 c06m", "assign 1 0", "push 0", "newarr 2 2", "aset 2 0 0",
